@@ -413,7 +413,7 @@ def start(u: U):
                 "cancellation while a request is in flight force-closes the connection")
 
 
-@unit("C05", "start.continue_condition", functions=[f"{MOD}:RequestHandler.start"], timeout_ms=20000, also=("C02",))
+@unit("C05", "start.continue_condition", functions=[f"{MOD}:RequestHandler.start"], timeout_ms=20000, also=("C02", "C20"))
 def start_continue(u: U):
     """the request loop goes round again only if the response allowed keep-alive and nobody asked to close; then the
     keep-alive timer is armed"""
@@ -506,7 +506,10 @@ def start_continue(u: U):
         went_round["v"] = True
         fs_ = fields(h)
         u.check("C05.start.continue_only_with_keepalive", And(resp.keep_alive, Not(close_flag)),
-                "the loop continues only if the response allowed keep-alive and no close was requested")
+                "the loop continues only if the response allowed keep-alive and no close was requested",
+                # C20: Server.pre_shutdown() marks every connection with close(): from then on a connection finishes the
+                # request it is handling and takes no further one - not even one that is already parsed and queued
+                also_as=("C20.shutdown.no_new_request_on_a_connection_marked_closing",))
         u.check("C05.start.keepalive_timer_armed", fs_["_keepalive_handle"] is not None,
                 "an idle keep-alive connection always has its timer armed")
 
